@@ -26,7 +26,7 @@ REQUIRED_CLAUSES = ["screw.aba", "screw.abc", "screw.frame", "wrench.aba", "wren
 
 def plan(tier, seed):
     if tier == "quick":
-        return [{"n": 1500, "timeout_s": 1800} for _ in range(8)]
+        return [{"n": 1500, "timeout_s": 1800} for _ in range(16)]
     return [{"n": 40000, "timeout_s": 7200} for _ in range(16)]
 
 
@@ -241,7 +241,7 @@ def run_shard(spec, ctx):
         A, B = np.array(case["A"]), np.array(case["B"])
         nt = bool(np.linalg.norm(A[:3] - B[:3]) > 1e-3 and np.linalg.norm(A[3:] - B[3:]) > 1e-3)
         ctx.case({"A": gen.quant(A, 1e-6), "B": gen.quant(B, 1e-6), "d1": gen.quant(case["d1"], 1e-6), "sk": case["sk"],
-                  "kk": case["kk"], "bk": case["bk"]}, nt)
+                  "kk": case["kk"], "bk": case["bk"]}, nt, sample=case)
         ctx.cls("s:" + case["sk"])
         ctx.cls("k:" + case["kk"])
         ctx.cls("b:" + case["bk"])
